@@ -6,11 +6,12 @@ from .engine import to_smt2, Unsupported
 
 
 class Ob:
-    __slots__ = ("fn", "clause", "label", "smt2", "lineno", "expect_sat", "pc", "claim", "axioms", "replay", "hints", "hint_terms")
+    __slots__ = ("fn", "clause", "label", "smt2", "lineno", "expect_sat", "pc", "claim", "axioms", "replay", "hints", "hint_terms", "module")
 
     def __init__(self, fn, clause, label, smt2, lineno=None, expect_sat=False, pc=None, claim=None, axioms=None, replay=None, hints=()):
         self.hints = list(hints)
         self.hint_terms = []
+        self.module = None
         self.fn, self.clause, self.label, self.smt2, self.lineno, self.expect_sat = fn, clause, label, smt2, lineno, expect_sat
         self.pc, self.claim, self.axioms, self.replay = pc, claim, axioms, replay
 
@@ -87,6 +88,28 @@ def _solve1(smt2, timeout_ms, want_model, second_opinion=True, seed=None):
     return ("unknown", reason, time.time() - t, "z3+cvc5")
 
 
+# Sidecar contracts that describe WHICH statements / calls the source issues (recording stubs).  Part of their clauses compare recorded
+# structure (a statement list, an expression tree, the arguments of a call) with the expected structure in Python: such a claim is the
+# constant `false` when the SHAPE differs.  A shape mismatch has no counter-model - it means "this contract does not describe this tree":
+# the code may be wrong, or merely written differently (statements in another order, `~clr` for `set` where they are equal, an If/Elif
+# swapped where the conditions exclude each other).  That is an inapplicable proof, not a refutation: the per-configuration clauses (which
+# look at the netlist / run the real constructor) decide such a tree, exactly as for a construct outside the pyvc subset.
+STATEMENT_LEVEL = {"contracts." + m for m in ("register", "monitor_l1", "decoder_l1", "arbiter_l1", "gpio_l1", "sram_l1", "bridge_l1", "mux_l1", "action_l1",
+                                              "glue_l1", "regbank_ctor", "sig_init", "fields", "ctor", "busadd", "prepare_term")}
+
+
+def _literally_false(t):
+    if z3.is_false(t):
+        return True
+    if z3.is_and(t):
+        return any(_literally_false(c) for c in t.children())
+    return False
+
+
+def structural_misfit(o):
+    return (o.module in STATEMENT_LEVEL and o.claim is not None and not o.expect_sat and _literally_false(o.claim))
+
+
 def _pool_map(fn, jobs, procs, chunksize, per_job_s):
     """pool.map with a HARD limit per result: a solver call that does not honour its own timeout must not hang the check.  A job whose
     result does not arrive in time is `unknown` (undecided - never a violation); the pool is torn down at the end either way."""
@@ -156,6 +179,11 @@ def discharge_all(run, obs, timeout_ms=20000, procs=None, on_sat=None):
             # a coverage probe of the contract itself (every kind of iteration / path was seen) fails: the sidecar contract does not
             # fit the code of this tree -> undecided; it says nothing about the property
             run.add(name, "undecided", backend, dt, clause=f"{o.fn}::{o.clause}", detail="the contract's own coverage probe failed: contract does not fit this tree")
+            out.append((o, "unknown", detail)); continue
+        elif status == "sat" and structural_misfit(o):
+            run.add(name, "misfit", backend, dt, clause=f"{o.fn}::{o.clause}",
+                    detail="the recorded structure differs in SHAPE from the contract's: the statement-level contract does not describe this tree")
+            run.misfits.append(name)
             out.append((o, "unknown", detail)); continue
         elif status == "sat":
             run.add(name, "failed", backend, dt, clause=f"{o.fn}::{o.clause}")
@@ -312,7 +340,12 @@ class FnVerifier:
     """Collects obligations for one function under contract."""
 
     def __init__(self, qualname, axioms):
+        import sys
         self.qualname, self.axioms = qualname, axioms
+        try:
+            self.module = sys._getframe(1).f_globals.get("__name__")          # the sidecar contract module that builds this verifier
+        except Exception:
+            self.module = None
         self.obs = []
         self.paths = 0
         self.unsupported = None
@@ -331,6 +364,7 @@ class FnVerifier:
         self.obs.append(Ob(self.qualname, clause, label, "" if trivial else to_smt2(axioms, pc, claim), lineno, expect_sat,
                            pc=list(pc), claim=claim, axioms=axioms, replay=replay or self.default_replay, hints=hints))
         self.obs[-1].hint_terms = list(self.scope_hints)
+        self.obs[-1].module = self.module
 
     def add_engine_obligations(self, ex):
         for k, (label, pc, claim, lineno) in enumerate(ex.obligations):
